@@ -84,6 +84,15 @@ pub fn load_certs(filename: &str) -> io::Result<Vec<Certificate>> {
     CertificateDer::pem_slice_iter(pem_data.as_bytes())
         .collect::<Result<Vec<_>, _>>()
         .map_err(|e| io::Error::new(ErrorKind::InvalidInput, format!("Invalid cert: {}", e)))
+        .and_then(|certs| {
+            if certs.is_empty() {
+                return Err(io::Error::new(
+                    ErrorKind::InvalidInput,
+                    "No certificate found in the file",
+                ));
+            }
+            Ok(certs)
+        })
         .map(|certs| {
             certs
                 .into_iter()
